@@ -117,8 +117,8 @@ def describe(fn, ref):
     return n
 
 
-def check_op(fn, pv, ins):
-    """-> (verdict, text)"""
+def check_op(fn, pv, ins, at=None):
+    """-> (verdict, text); the goal is proven at the operation itself, or at `at` (an instruction it dominates)"""
     a, b = _k(ins.o[0]), _k(ins.o[1])
     bits = ins.x.get('bits') or 64
     if ins.op == 'add':
@@ -138,7 +138,7 @@ def check_op(fn, pv, ins):
         goal = ('nwsub', a, b, bits)
     else:
         return 'PASS', ''
-    if pv.prove_at(goal, ins):
+    if pv.prove_at(goal, at or ins):
         tr = pv.trace[-1] if pv.trace else None
         return 'PASS', '%s derived from %s' % (goal[0], [t for t in (tr[3] if tr else [])][:6])
     expr = describe(fn, ins.ref)
@@ -302,7 +302,8 @@ def check_entry(fn, rule, length_fields=(), compare=False, label=None, sub_in_co
     pv = Prover(fn)
     done = {}
     n = 0
-    for sink, opnd, kind in find_sinks(fn, length_fields, compare, skip_alloc=skip_alloc):
+    all_sinks = list(find_sinks(fn, length_fields, compare, skip_alloc=skip_alloc))
+    for sink, opnd, kind in all_sinks:
         sl = backward_slice(fn, opnd)
         for ins in sl.values():
             if ins.op == 'extractvalue' and ins.ref in tnt and ins.id not in done:
@@ -334,6 +335,12 @@ def check_entry(fn, rule, length_fields=(), compare=False, label=None, sub_in_co
                 rule.ok(('%s:%s:%s' % (label or fn.name, ins.srcfn, describe(fn, ins.ref))).replace(' ', ''), 'exempt: ' + why, ins.loc())
                 continue
             verdict, text = check_op(fn, pv, ins)
+            if verdict != 'PASS':
+                # compute-then-check: the operation may wrap as long as every use as a size / length is only reached
+                # once a check has established that it did not -- prove the same goal at each sink it reaches
+                sinks_of = [(s2, k2) for (s2, o2, k2) in all_sinks if ins.id in {x.id for x in backward_slice(fn, o2).values()}]
+                if sinks_of and all(fn.dominates(ins, s2) and check_op(fn, pv, ins, at=s2)[0] == 'PASS' for s2, _ in sinks_of):
+                    verdict, text = 'PASS', check_op(fn, pv, ins, at=sinks_of[0][0])[1] + ' (established before every use: compute-then-check)'
             done[ins.id] = verdict
             n += 1
             site = ('%s:%s:%s' % (label or fn.name, ins.srcfn, describe(fn, ins.ref))).replace(' ', '')
